@@ -106,6 +106,7 @@ func runCase(c mach.Case) *h.Outcome {
 	origin := originNone // how the current transaction last changed
 	promotions, badSigs, wrongPhase, unsignedAdopt := 0, 0, 0, 0
 	var v *verifier
+	phases := map[channel.Phase]bool{}
 
 	for i, op := range c.Ops {
 		var call mach.Call
@@ -168,6 +169,9 @@ func runCase(c mach.Case) *h.Outcome {
 				}
 			}
 
+			phases[phase] = true
+			phases[e.M.Phase()] = true
+
 			// --- how did the current transaction change?
 			cur := e.M.CurrentTX()
 			curEnc := mach.EncTx(cur)
@@ -227,6 +231,9 @@ func runCase(c mach.Case) *h.Outcome {
 			o.Fail = fail
 			return o
 		}
+	}
+	for p := range phases {
+		o.Class("phase:" + p.String())
 	}
 	if promotions > 0 {
 		o.Class("with-promotion")
